@@ -410,8 +410,11 @@ def _r11e(rep):
     m = core.find_method(DOS, "ProjectedDos", "_run_smearing_method")
     tr = symalg.OpenPyTranslator(where="ProjectedDos._run_smearing_method")
     env = tr.summary(m)
-    w = env.get("weights")
-    okw = w is not None and symalg.same(w, symalg.open_expr("self._weights / float(np.sum(self._weights))"))[0]
+    # by role: the local that holds the normalised weights is the one whose value is self._weights / sum(self._weights)
+    wexp = symalg.open_expr("self._weights / float(np.sum(self._weights))")
+    cand = [v for k, v in env.items() if isinstance(k, str) and not k.startswith("self.") and hasattr(v, "has") and symalg.same(v, wexp)[0]]
+    w = cand[0] if cand else None
+    okw = w is not None
     stores = [v for k, vs in tr.assigned.items() if k.startswith("self._projected_dos[") for v in vs]
     oks = bool(stores) and all(w is not None and v.has(w) for v in stores)
     rep.instance("R11e", DOS, "ProjectedDos._run_smearing_method", "weights = w / sum(w); pdos[j, i] = dot(weights, |e|^2 * K).sum()", okw and oks,
@@ -419,7 +422,9 @@ def _r11e(rep):
     # (4) iterated tetrahedron paths weight row i of the iterator by weights[i]
     for cls, meth, tgt in (("TotalDos", "run", "aug:self._dos"), ("ProjectedDos", "_run_tetrahedron_method", "aug:self._projected_dos")):
         m = core.find_method(DOS, cls, meth)
-        loops = [n for n in ast.walk(m) if isinstance(n, ast.For) and core.src(n.iter) == "enumerate(thm)"]
+        # the loop over the tetrahedron-mesh iterator: enumerate(<local bound to self._tetrahedron_mesh>), by role
+        thm_names = {core.src(st.targets[0]) for st in ast.walk(m) if isinstance(st, ast.Assign) and core.src(st.value) == "self._tetrahedron_mesh"} | {"self._tetrahedron_mesh"}
+        loops = [n for n in ast.walk(m) if isinstance(n, ast.For) and isinstance(n.iter, ast.Call) and core.src(n.iter.func) == "enumerate" and n.iter.args and core.src(n.iter.args[0]) in thm_names and isinstance(n.target, ast.Tuple) and len(n.target.elts) == 2]
         if not loops:
             raise AnalysisError(f"{cls}.{meth}: 'for i, iw in enumerate(thm)' vanished")
         lp = loops[0]
@@ -729,7 +734,10 @@ def _r11g(rep, tu, P):
         if isinstance(n, ast.If) and core.src(n.test) == "value == 'I'":
             sel_py["I"] = sorted(core.src(s) for s in n.body)
             sel_py["else"] = sorted(core.src(s) for s in n.orelse)
-    rep.instance("R11g", PY, f"{CLS}._get_integration_weight_py", str(sel_py), sel_py == {"I": ["IJ = self._I", "gn = self._g"], "else": ["IJ = self._J", "gn = self._n"]},
+    # by role: the two names bound in the selector are the callees of the product that each case adds
+    vals_I = sorted(x.split("=")[1].strip() for x in sel_py.get("I", []))
+    vals_E = sorted(x.split("=")[1].strip() for x in sel_py.get("else", []))
+    rep.instance("R11g", PY, f"{CLS}._get_integration_weight_py", str(sel_py), vals_I == ["self._I", "self._g"] and vals_E == ["self._J", "self._n"] and [x.split("=")[0].strip() for x in sel_py.get("I", [])] == [x.split("=")[0].strip() for x in sel_py.get("else", [])],
                  "Python selector does not pair 'I' with (_g, _I) and otherwise (_n, _J)", line=pf.lineno)
 
 
@@ -805,13 +813,20 @@ def _r11j(rep):
                  "the vertex frequencies of tetrahedron i are not copied in order, or a case does not add the product IJ * gn", line=tu.line(giw))
     # Python side of the same two facts
     pf = core.find_def(PY, f"{CLS}._get_integration_weight_py")
-    pacc = [a for a in ast.walk(pf) if isinstance(a, ast.AugAssign) and core.src(a.target) == "sum_value"]
+    # by role: the accumulator is the local that is returned (divided by 6); the two callees are the names bound in
+    # the selector, the one with two arguments being IJ
+    prets_ = [r.value for r in ast.walk(pf) if isinstance(r, ast.Return) and r.value is not None]
+    augd_ = {core.src(a.target) for a in ast.walk(pf) if isinstance(a, ast.AugAssign)}
+    accn = sorted({x.id for r in prets_ for x in ast.walk(r) if isinstance(x, ast.Name) and x.id in augd_})
+    if len(accn) != 1:
+        raise AnalysisError("R11j: _get_integration_weight_py does not return its accumulator")
+    pacc = [a for a in ast.walk(pf) if isinstance(a, ast.AugAssign) and core.src(a.target) == accn[0]]
     pprods = []
     for a in pacc:
         v = a.value
-        ok_ = isinstance(a.op, ast.Add) and isinstance(v, ast.BinOp) and isinstance(v.op, ast.Mult) and isinstance(v.left, ast.Call) and isinstance(v.right, ast.Call) and sorted([core.src(v.left.func), core.src(v.right.func)]) == ["IJ", "gn"]
+        ok_ = isinstance(a.op, ast.Add) and isinstance(v, ast.BinOp) and isinstance(v.op, ast.Mult) and isinstance(v.left, ast.Call) and isinstance(v.right, ast.Call) and sorted([len(v.left.args), len(v.right.args)]) == [1, 2] and core.src(v.left.func) != core.src(v.right.func)
         if ok_:
-            ij, gn_ = (v.left, v.right) if core.src(v.left.func) == "IJ" else (v.right, v.left)
+            ij, gn_ = (v.left, v.right) if len(v.left.args) == 2 else (v.right, v.left)
             ok_ = core.src(ij.args[0]) == core.src(gn_.args[0])
         pprods.append(ok_)
     rep.instance("R11j", PY, f"{CLS}._get_integration_weight_py", f"{len(pacc)} cases add IJ(k, position of the central vertex) * gn(k)", len(pacc) == 5 and all(pprods), "a case of the Python reference does not add the product IJ(k, .) * gn(k)", line=pf.lineno)
